@@ -17,6 +17,11 @@
 //	                      blocks in Receive) / let it go on. Ops submitted in between stay queued in the hub,
 //	                      so a Close or a writer step happens "while events are on their way".
 //
+//	fed <events> <history> <dels> <fail>  the hub as the server feeds it: msghub.New registers itself on the
+//	                      extension host; stored (and then deleted) events are EMITTED on ExtHost.Events, i.e. go
+//	                      through the asynchronous broker into hub.Dispatch / hub.Delete; monitor 1 attached before,
+//	                      (a monitor failing after <fail> calls,) monitor 2 attached after everything settled
+//
 // Before c, w, g and at the end the driver brings the hub to rest with Sync (deadline); a Sync that does
 // not return in time is the observation "blocked".
 package main
@@ -394,7 +399,89 @@ func runHub(n int, ops []string) []string {
 	return outs
 }
 
+func fmtTags(es []evt) string {
+	parts := make([]string, len(es))
+	for i, e := range es {
+		k := "s"
+		if e.del {
+			k = "x"
+		}
+		parts[i] = k + e.id
+	}
+	return strings.Join(parts, ";")
+}
+
+func (m *mock) count() int {
+	m.mu.Lock()
+	defer m.mu.Unlock()
+	return len(m.rec)
+}
+
+func runFed(events, history int, dels []string, fail int) []string {
+	ctx, cancel := context.WithCancel(context.Background())
+	defer cancel()
+	host := extension.NewHost()
+	hub := msghub.New(history, host)
+	go hub.Start(ctx)
+	first := &mock{fail: -1}
+	if !within(syncDeadline, func() { hub.AddListener(first) }) || !syncWait(hub, syncDeadline) {
+		return []string{"fail:setup"}
+	}
+	if fail >= 0 {
+		hub.AddListener(&mock{fail: fail})
+		syncWait(hub, syncDeadline)
+	}
+	settle := func(want int) bool {
+		deadline := time.Now().Add(10 * time.Second)
+		for time.Now().Before(deadline) {
+			if first.count() >= want {
+				break
+			}
+			time.Sleep(2 * time.Millisecond)
+		}
+		time.Sleep(20 * time.Millisecond) // anything beyond what is wanted would show up now
+		return syncWait(hub, syncDeadline)
+	}
+	for i := 0; i < events; i++ {
+		host.Events.AfterMessageStored.Emit(&event.MessageMetadata{Mailbox: "box", ID: strconv.Itoa(100 + i)})
+	}
+	ok := settle(events)
+	for _, d := range dels {
+		host.Events.AfterMessageDeleted.Emit(&event.MessageMetadata{Mailbox: "box", ID: d})
+	}
+	ok = settle(events+len(dels)) && ok
+	late := &mock{fail: -1}
+	if !within(syncDeadline, func() { hub.AddListener(late) }) {
+		return []string{"fail:late-join-stuck"}
+	}
+	ok = syncWait(hub, syncDeadline) && ok
+	time.Sleep(10 * time.Millisecond)
+	ok = syncWait(hub, syncDeadline) && ok
+	first.mu.Lock()
+	a := fmtTags(first.rec)
+	first.mu.Unlock()
+	late.mu.Lock()
+	b := fmtTags(late.rec)
+	late.mu.Unlock()
+	q := "quiescent"
+	if !ok {
+		q = "busy"
+	}
+	return []string{"first=" + a, "late=" + b, q}
+}
+
 func exec(kind string, in []string) []string {
+	if kind == "fed" {
+		var dels []string
+		if in[2] != "-" {
+			dels = strings.Split(in[2], ",")
+		}
+		fail := -1
+		if in[3] != "-" {
+			fail = vh.AtoI(in[3])
+		}
+		return runFed(vh.AtoI(in[0]), vh.AtoI(in[1]), dels, fail)
+	}
 	if asmsys.Is(kind) {
 		return asmsys.Exec(kind, in)
 	}
